@@ -1,4 +1,5 @@
 //! Harness binary of the formatter cluster: C07 (range formatting), C05/C06 (formatter).
+mod fmt;
 mod gen_lua;
 mod range;
 mod tokens;
@@ -11,6 +12,7 @@ fn main() {
     let mut report = Report::default();
     match args.prop.as_str() {
         "C07" => range::run(&args, &mut report),
+        "C05" | "C06" => fmt::run(&args, &mut report),
         "dbg-parse" => {
             // developer aid: print the parser's errors for a file (--replay FILE)
             let text = std::fs::read_to_string(args.replay.as_ref().expect("--replay FILE")).expect("file");
